@@ -204,6 +204,15 @@ def mutators(h, family):
     for cls, (x, y) in itertools.product(("DirectedEdge", "UnDirectedEdge", "SymTwo"), (("a", "d"), ("d", "a"), ("d", "d"), ("a", "b"))):
         M.append(create(cls, x, y))
 
+    def create_rejected(cls, x, bad_first):
+        """an edge constructor given something that is not a vertex as one end: TypeError, and the graph is as before"""
+        def do(g):
+            bad = "not-a-vertex"
+            return h.call(h.cls(cls), *((bad, g.obj(x)) if bad_first else (g.obj(x), bad)))
+        return Mut(f"{cls}({'<str>, ' + x if bad_first else x + ', <str>'})  # rejected", "constructor-rejected", f"edgegraph.structure.{cls}.__init__", do, lambda m: "raise")
+
+    M += [create_rejected("DirectedEdge", "a", False), create_rejected("DirectedEdge", "b", True), create_rejected("UnDirectedEdge", "c", False)]
+
     def setend(l, i, x):
         return Mut(f"{l}.v{i + 1} = {x}", f"set_v{i + 1}", Q[f"set_v{i + 1}"], lambda g: h.setattr(g.obj(l), f"v{i + 1}", g.obj(x)), lambda m: struct.m_set_end(m, l, i, x))
 
